@@ -395,7 +395,7 @@ def save_total(ctx: Ctx, chk) -> None:
         raise AnalysisError("anchor vanished: Persistence.save")
     fi = ctx.inl(save)
     g = CFG(fi.node)
-    writes = [n for n in g.nodes if n.ast is not None and n.kind in ("stmt", "with-enter") and any(isinstance(x, ast.Call) and isinstance(x.func, ast.Attribute) and x.func.attr in ("write", "writelines", "dump") and (ctx.prog.type_of(save.module, x.func.value) or "").find("aiofiles") >= 0 for p_ in n.parts() for x in ast.walk(p_))]
+    writes = [n for n in g.nodes if n.ast is not None and n.kind in ("stmt", "with-enter") and any(isinstance(x, ast.Call) and isinstance(x.func, ast.Attribute) and x.func.attr in ("write", "writelines", "dump") and ((ctx.prog.type_of(save.module, x.func.value) or "").find("aiofiles") >= 0 or (isinstance(x.func.value, ast.Name) and ctx.prog.aiofiles_with_target(save.module, fi.node, x.func.value.id))) for p_ in n.parts() for x in ast.walk(p_))]
     chk.instance(rule)
     key = f"{save.fq}::always-writes"
     if not writes:
